@@ -431,4 +431,71 @@ Section SplitWrites.
     - intro E; inversion E; subst. lia.
     - destruct (vr_verify H (t_comb t) (t_fuel t) (d_dg (t_d t)) v0) as [r v1]. intro E; inversion E; subst. lia.
   Qed.
+
+  (* ---- an unsplit schedule takes at most three steps per thread, so the explorer's fuel
+     4 * threads + 2 (what the correspondence uses) is enough *)
+  Definition rank (t : thr) : nat :=
+    match t_pc t with
+    | PStart => 3
+    | PIngest _ (_ :: _) _ => 2
+    | PIngest _ [] _ => 1
+    | PDone _ => 0
+    end.
+
+  Fixpoint total_rank (l : list thr) : nat :=
+    match l with [] => 0 | t :: r => rank t + total_rank r end.
+
+  Lemma total_rank_set_nth l i t x :
+    nth_error l i = Some t -> total_rank (set_nth l i x) + rank t = total_rank l + rank x.
+  Proof.
+    revert i. induction l as [|y l IH]; intros [|i]; simpl; try discriminate; intro E.
+    - inversion E; subst. lia.
+    - specialize (IH i E). lia.
+  Qed.
+
+  Lemma total_rank_le l : total_rank l <= 3 * length l.
+  Proof. induction l as [|t r IH]; simpl; [lia|]. unfold rank. destruct (t_pc t) as [|w [|c todo] e|r0]; lia. Qed.
+
+  Lemma cstep_rank st i st' :
+    Forall fits (c_thr st) -> cstep H st i big = Some st' ->
+    Forall fits (c_thr st') /\ total_rank (c_thr st') < total_rank (c_thr st).
+  Proof.
+    intros Ff Es. split; [exact (proj1 (cstep_sim st i big st' Ff Es))|].
+    unfold cstep in Es. destruct (nth_error (c_thr st) i) as [t|] eqn:Ei; [|discriminate].
+    pose proof (Forall_nth_error _ _ _ _ Ff Ei) as Ft. unfold fits in Ft.
+    assert (R : forall p, rank (with_pc t p) < rank t ->
+                total_rank (set_nth (c_thr st) i (with_pc t p)) < total_rank (c_thr st)).
+    { intros p L. pose proof (total_rank_set_nth _ _ _ (with_pc t p) Ei). lia. }
+    unfold rank in R at 2.
+    destruct (t_pc t) as [|w todo e|r] eqn:Epc; [| |discriminate].
+    - destruct (negb (valid_digest (d_dg (t_d t)))); [inversion Es; subst; apply R; unfold rank; simpl; lia|].
+      destruct (oci_get (c_blobs st) (d_dg (t_d t))); [inversion Es; subst; apply R; unfold rank; simpl; lia|].
+      destruct (copy_buffer H (t_comb t) true (t_fuel t) (mkBase (t_evs t) None) oci_bufsz (d_dg (t_d t)) (d_sz (t_d t)))
+        as [[e out] v]. inversion Es; subst. apply R. unfold rank; simpl. destruct out; lia.
+    - destruct todo as [|c todo'].
+      + destruct e; inversion Es; subst; apply R; unfold rank; simpl; lia.
+      + inversion Es; subst. apply R. unfold rank. cbn [t_pc with_pc].
+        assert (K : Nat.min big (length todo' - 0) = length todo').
+        { rewrite app_length in Ft. simpl in *. lia. }
+        rewrite K, skipn_all. lia.
+  Qed.
+
+  Lemma crun_big_length is : forall st st',
+    Forall fits (c_thr st) -> crun H st (map (fun i => (i, big)) is) = Some st' ->
+    length is + total_rank (c_thr st') <= total_rank (c_thr st).
+  Proof.
+    induction is as [|i r IH]; intros st st' Ff; simpl.
+    - intro E; inversion E; subst. lia.
+    - destruct (cstep H st i big) as [st1|] eqn:Es; [|discriminate]. intro E.
+      destruct (cstep_rank st i st1 Ff Es) as [F1 L]. specialize (IH st1 st' F1 E). lia.
+  Qed.
+
+  Theorem split_writes_explored_fuel st0 sched st' :
+    Forall (fun t => t_pc t = PStart) (c_thr st0) -> Forall fits (c_thr st0) ->
+    crun H st0 sched = Some st' -> Forall (fun t => exists r, t_pc t = PDone r) (c_thr st') ->
+    In st' (explore H (4 * length (c_thr st0) + 2) big st0).
+  Proof.
+    intros Fs Ff E Fd. destruct (split_writes_explored st0 sched st' Fs Ff E Fd) as (is & R & X).
+    apply X. pose proof (crun_big_length is st0 st' Ff R). pose proof (total_rank_le (c_thr st0)). lia.
+  Qed.
 End SplitWrites.
